@@ -16,7 +16,10 @@ pub struct HUnit<T> {
 }
 
 pub fn make_unit<T: Evaluate>(ends: Vec<f64>, pw: Piecewise<T>, depth: usize, with_nan: bool, kind: &'static str) -> HUnit<T> {
-    let mut alpha = order_alphabet(&ends);
+    let alpha = order_alphabet(&ends);
+    make_unit_with(ends, pw, depth, with_nan, kind, alpha)
+}
+pub fn make_unit_with<T: Evaluate>(ends: Vec<f64>, pw: Piecewise<T>, depth: usize, with_nan: bool, kind: &'static str, mut alpha: Vec<f64>) -> HUnit<T> {
     if with_nan {
         alpha.extend(nans());
     }
@@ -194,6 +197,42 @@ fn phases(thorough: bool, c16: bool) -> Vec<Phase> {
         sl.iter().filter(|(e, _)| e.len() <= 4).map(|(e, d)| make_unit(e.clone(), poly1_pw(e), (*d).min(3), c16, "Poly1")).collect();
     let nasty: Vec<HUnit<Probe>> = shapes(&nasty_values(), 3).into_iter().map(|e| make_unit(e.clone(), probe_pw(&e), 3, c16, "Probe")).collect();
     let nan_txt = if c16 { " plus 4 NaN bit patterns (+-quiet, two payloads)" } else { "" };
+    // long histories over a reduced alphabet (one point per cell and every end): hidden state that only goes wrong after many steps
+    let long_list: Vec<(Vec<f64>, usize)> = vec![
+        (vec![1.0, 2.0], if thorough { 13 } else { 11 }),
+        (vec![1.0, 1.0, 2.0], if thorough { 12 } else { 10 }),
+        (vec![1.0, 2.0, 3.0], if thorough { 10 } else { 9 }),
+        (vec![1.0, 2.0, 2.0, 3.0], if thorough { 10 } else { 8 }),
+        (vec![1.0, 2.0, 3.0, 4.0], if thorough { 9 } else { 7 }),
+        (iota(5), if thorough { 8 } else { 7 }),
+        (iota(6), if thorough { 7 } else { 6 }),
+        (iota(8), if thorough { 6 } else { 5 }),
+    ];
+    let long_units: Vec<HUnit<Probe>> = long_list
+        .iter()
+        .map(|(e, d)| {
+            let mut a = reduced_alphabet(e);
+            if c16 {
+                a.truncate(a.len()); // NaNs are appended by make_unit_with (all four patterns would blow up the depth: keep one)
+            }
+            let mut u = make_unit_with(e.clone(), probe_pw(e), *d, false, "Probe", a);
+            if c16 {
+                u.alpha.push(f64::NAN);
+                u.direct.push(guard(|| u.pw.evaluate(f64::NAN)).ok());
+                u.depth = u.depth.saturating_sub(1).max(3);
+            }
+            u
+        })
+        .collect();
+    // big functions around size thresholds: every history of length <= 2 (3 for small sizes) over the full alphabet
+    let big_units: Vec<HUnit<Probe>> = threshold_sizes(thorough)
+        .into_iter()
+        .filter(|&n| n <= if thorough { 257 } else { 129 })
+        .map(|n| {
+            let e = iota(n);
+            make_unit(e.clone(), probe_pw(&e), if n <= 17 { 3 } else { 2 }, c16, "Probe")
+        })
+        .collect();
     let mut v = vec![];
     let n = probe_units.len();
     v.push(Phase {
@@ -215,6 +254,28 @@ fn phases(thorough: bool, c16: bool) -> Vec<Phase> {
         split: 0,
         bounds: json!({"shapes": "end lists of length 1..4 over {1..5}", "depth": 3, "piece_type": "real Poly1 pieces with pairwise different coefficients"}),
     });
+    let n = long_units.len();
+    v.push(Phase {
+        name: "long-histories-reduced-alphabet",
+        units: n,
+        split: 3,
+        body: hist_body(Arc::new(long_units), c16),
+        classes: classes(c16).into_iter().map(|(n, _)| (n, false)).collect(),
+        bounds: json!({"shapes": "[1,2], [1,1,2], [1,2,3], [1,2,2,3], [1,2,3,4], 1..5, 1..6, 1..8",
+                       "alphabet": "reduced: one point below, every end, one interior point per cell, one point above (C16: plus one NaN)",
+                       "depth": if thorough {"13, 12, 10, 10, 9, 8, 7, 6 (C16: one less)"} else {"11, 10, 9, 8, 7, 7, 6, 5 (C16: one less)"}}),
+    });
+    let n = big_units.len();
+    v.push(Phase {
+        name: "big-functions",
+        units: n,
+        split: 1,
+        body: hist_body(Arc::new(big_units), c16),
+        classes: classes(c16).into_iter().map(|(n, _)| (n, false)).collect(),
+        bounds: json!({"shapes": format!("1..n for n in {:?}", threshold_sizes(thorough).into_iter().filter(|&n| n <= if thorough { 257 } else { 129 }).collect::<Vec<_>>()),
+                       "histories": "every history of length <= 2 (<= 3 for n <= 17) over the full order-complete alphabet A(ends)"}),
+    });
+    v.push(debruijn_phase(thorough, c16));
     let n = nasty.len();
     v.push(Phase {
         name: "histories-nasty-ends",
@@ -225,6 +286,58 @@ fn phases(thorough: bool, c16: bool) -> Vec<Phase> {
         bounds: json!({"shapes": "end lists of length 1..3 over {-MAX,-1,-2^-1022,-0.0,+0.0,5e-324,1,succ(1),1e300,MAX,+inf}", "depth": 3}),
     });
     v
+}
+
+/// one long history per shape: a de Bruijn sequence of order 3 (4 thorough) over the full alphabet, so that every window of
+/// 3 (4) consecutive queries occurs inside one long run of a single evaluator (state accumulated over 10^4..10^6 queries)
+fn debruijn_phase(thorough: bool, c16: bool) -> Phase {
+    let mut sh = shapes(&[1.0, 2.0, 3.0, 4.0], 4);
+    sh.push(iota(5));
+    sh.push(iota(9));
+    sh.push(iota(33));
+    let order = if thorough { 4 } else { 3 };
+    let units: Vec<HUnit<Probe>> = sh.into_iter().map(|e| make_unit(e.clone(), probe_pw(&e), 1, c16, "Probe")).collect();
+    let n = units.len();
+    let units = Arc::new(units);
+    Phase {
+        name: "one-long-de-bruijn-history-per-shape",
+        units: n,
+        split: 0,
+        body: Box::new(move |unit, cx| {
+            let u = &units[unit];
+            let k = u.alpha.len();
+            let ord = if k > 60 { 2 } else if k > 30 { order.min(3) } else { order };
+            let seq = debruijn(k, ord);
+            let mut ev = PiecewiseEvaluator::new(&u.pw.segments);
+            cx.nontrivial();
+            for (t, &idx) in seq.iter().enumerate() {
+                let x = u.alpha[idx];
+                let got = guard(|| ev.evaluate(x));
+                cx.evals(1);
+                let bad = match (&got, u.direct[idx]) {
+                    (Err(_), _) => true,
+                    (Ok(_), _) if x.is_nan() => false,
+                    (Ok(g), Some(w)) => !bits_eq(*g, w),
+                    (Ok(_), None) => true,
+                };
+                if bad {
+                    let from = t.saturating_sub(8);
+                    let tail: Vec<f64> = seq[from..=t].iter().map(|&i| u.alpha[i]).collect();
+                    return Err(Fail::new(
+                        "PiecewiseEvaluator answer differs from direct evaluation inside a long history",
+                        json!({"ends": fjs(&u.ends), "position_in_history": t, "history_length": seq.len(), "last_queries": fjs(&tail),
+                               "direct_evaluation": u.direct[idx].map(fj), "evaluator_answer": format!("{:?}", got)}),
+                    ));
+                }
+            }
+            if cx.sampling() {
+                cx.sample(json!({"ends": fjs(&u.ends), "history_length": seq.len(), "de_bruijn_order": ord}));
+            }
+            Ok(())
+        }),
+        classes: vec![],
+        bounds: json!({"shapes": "end lists of length 1..4 over {1..4}, 1..5, 1..9, 1..33", "history": format!("de Bruijn sequence of order {order} (3 for |A| > 30, 2 for |A| > 60) over A(ends): every window of that many consecutive queries occurs in one run of a single evaluator")}),
+    }
 }
 
 pub fn check_c03(thorough: bool, _seed: u64) -> Check {
